@@ -299,8 +299,14 @@ def _check(prop, tier, seed, repo, vacuity=True, update_baseline=False):
     # enumeration is run on the real code as a BOUNDED stand-in (never counted as proved). It can only ADD a violation
     # (with a concrete failing input); if it finds nothing the run stays undecided.
     native_fb = None
+    run_native = None
     if undecided and not violations and cfg.get("native_fallback"):
-        test = cfg["native_fallback"]
+        run_native = cfg["native_fallback"]
+    elif tier == "thorough" and not violations and cfg.get("native_thorough"):
+        # thorough tier: the bounded enumeration also runs as a (labelled) bounded check of the clauses no contract covers
+        run_native = cfg["native_thorough"]
+    if run_native:
+        test = run_native
         try:
             import native_run
             cexn = native_run.find_cex(test, repo)
@@ -308,7 +314,7 @@ def _check(prop, tier, seed, repo, vacuity=True, update_baseline=False):
             native_fb = {"test": test, "bound": native_run.BOUNDS.get(test, ""), "status": "FAILS" if cexn else "no failing input in the enumerated family"}
             if cexn:
                 violations.append({"unit": "native", "function": test, "engine": "native-bounded",
-                                   "errors": [{"message": "bounded native enumeration found failing inputs (run because: %s)" % undecided[0][:300], "text": "; ".join(cexn["failing_inputs"][:3]),
+                                   "errors": [{"message": "bounded native enumeration found failing inputs (run because: %s)" % (undecided[0][:300] if undecided else "thorough tier"), "text": "; ".join(cexn["failing_inputs"][:3]),
                                                "rendered": "\n".join(cexn["failing_inputs"])}], "cex": cexn})
         except Exception as e:  # noqa
             native_fb = {"test": test, "status": "could not run: %s" % e}
